@@ -69,6 +69,11 @@ class Fault(Exception):
     """the exception raised by fault-injecting callbacks"""
 
 
+class StopFault(StopIteration):
+    """a fault that is a StopIteration (a callback using `next(it)` on an exhausted iterator): code that wraps
+    the callback in an iterator pipeline (`set(filter(...))`, a generator expression) swallows or converts it"""
+
+
 class NotAVertex:
     """an object that is not a Vertex (ill-typed constructor argument)"""
 
